@@ -67,6 +67,7 @@ type Stream struct {
 	resultChan     chan []map[string]any    // Result channel
 	seenResults    *sync.Map
 	done           chan struct{} // Used to close processing goroutines
+	dataReady      chan struct{} // capacity 1: a sender signals the data processor that dataChan has a new row
 	sinkWorkerPool chan func()   // Sink worker pool to avoid blocking
 
 	// Thread safety control
@@ -246,6 +247,14 @@ func (s *Stream) Start() {
 		defer s.lifecycle.Done()
 		processor.Process()
 	}()
+}
+
+// signalData wakes the data processor after a successful send (never blocks).
+func (s *Stream) signalData() {
+	select {
+	case s.dataReady <- struct{}{}:
+	default:
+	}
 }
 
 // Emit adds data to stream processing pipeline
